@@ -8,7 +8,9 @@
      extracted decoder + inv_check + "contents = reference" run on every file the library commits, and
      every call's result is compared with the extracted reference. *)
 From Coq Require Import List NArith.
+From Coq Require Import Permutation.
 From Jamm Require Import Bytes Codec Tree Spec Cursor SearchFacts CursorFacts SeekFacts CodecFacts.
+From Jamm Require Engine EngineFacts.
 Import ListNotations.
 
 Theorem C01_partial_get : forall t k, wf_tree t = true ->
@@ -27,3 +29,36 @@ Theorem C01_partial_codec : forall pad P pid over b rd,
   decode_page rd P pid = Ok (mkPhdr pid (body_type b) (body_count b) over, b).
 Proof. exact codec_page. Qed.
 Print Assumptions C01_partial_codec.
+
+(* ---- write half, node level (tier B, first layer): the engine model's leaf operations, merge and Engine.split.
+   Engine.v is compared page-for-page with the library on every commit the checks run; these theorems say that its
+   node-level steps are the reference map's steps on the node's sorted entry list. The lift to whole transactions
+   (cursor descent + rebalance + spill over the tree) is NOT proved: that is why the property stays C01_partial. *)
+Theorem C01_partial_engine_search_is_cursor_search : forall keys t,
+  Engine.bsearch keys t = (let '(b, i) := Cursor.bsearch keys t in (b, N.of_nat i)).
+Proof. exact EngineFacts.bsearch_agree. Qed.
+Print Assumptions C01_partial_engine_search_is_cursor_search.
+
+Theorem C01_partial_leaf_insert_refines : forall l e, sorted_keys (map Engine.lkey l) = true ->
+  EngineFacts.assoc (Engine.leaf_insert l e) = Spec.ainsert (Engine.lkey e) e (EngineFacts.assoc l) /\ sorted_keys (map Engine.lkey (Engine.leaf_insert l e)) = true.
+Proof. exact (fun l e H => conj (EngineFacts.leaf_insert_assoc l e H) (EngineFacts.leaf_insert_sorted l e H)). Qed.
+Print Assumptions C01_partial_leaf_insert_refines.
+
+Theorem C01_partial_leaf_delete_refines : forall l k, sorted_keys (map Engine.lkey l) = true ->
+  EngineFacts.assoc (Engine.leaf_delete l k) = Spec.aremove k (EngineFacts.assoc l) /\ sorted_keys (map Engine.lkey (Engine.leaf_delete l k)) = true.
+Proof. exact (fun l k H => conj (EngineFacts.leaf_delete_assoc l k H) (EngineFacts.leaf_delete_sorted l k H)). Qed.
+Print Assumptions C01_partial_leaf_delete_refines.
+
+Theorem C01_partial_merge_keeps_entries : forall l1 l2,
+  sorted_keys (map Engine.lkey l1) = true -> sorted_keys (map Engine.lkey l2) = true ->
+  EngineFacts.lkeys_below l2 l1 \/ EngineFacts.lkeys_below l1 l2 ->
+  exists m, Engine.merge_data (Engine.Leaves l1) (Engine.Leaves l2) = Engine.Ok (Engine.Leaves m) /\
+            sorted_keys (map Engine.lkey m) = true /\ Permutation m (l1 ++ l2) /\
+            (EngineFacts.lkeys_below l2 l1 -> m = l2 ++ l1) /\ (EngineFacts.lkeys_below l1 l2 -> m = l1 ++ l2).
+Proof. exact EngineFacts.merge_data_leaves. Qed.
+Print Assumptions C01_partial_merge_keeps_entries.
+
+Theorem C01_partial_split_keeps_entries : forall s d d0 rest, Engine.split s d = (d0, rest) ->
+  concat (map EngineFacts.ents_of (d0 :: rest)) = EngineFacts.ents_of d /\ Forall (fun p => Engine.is_leaf p = Engine.is_leaf d) (d0 :: rest).
+Proof. exact EngineFacts.split_concat. Qed.
+Print Assumptions C01_partial_split_keeps_entries.
